@@ -129,7 +129,63 @@ def post_C20(cov, stage_dir):
     cov["compiled_quoter_gil_release_sites_in_generated_c"] = n
 
 
+def plan_C19(tier):
+    n = scale(tier, 480, 24000)
+    ni = scale(tier, 3000, 200000)
+    subs = [
+        {"name": "alloc_faults", "machine": "c19", "backends": ["c"], "cfg": {"max_m": 3, "multi": 4}, "runs": n, "batch": 6, "share": scale(tier, 28, 1500)},
+        {"name": "alloc_faults_debug_allocator", "machine": "c19", "backends": ["c"], "env": {"PYTHONMALLOC": "debug"},
+         "cfg": {"max_m": 2, "multi": 3}, "runs": scale(tier, 96, 8000), "batch": 6, "share": scale(tier, 10, 900)},
+        {"name": "input_monitor", "machine": "c19i", "cfg": {}, "runs": ni, "batch": 40, "share": scale(tier, 12, 600)},
+    ]
+    return {"backends": ["c", "py"], "subs": subs, "budget_s": scale(tier, 55, 3300)}
+
+
+def evidence_C19(agg, tier):
+    c = agg.ctr
+    return {
+        "rule": ("fault half: one evaluation = one sampled operation (a direct call of one of the 9 quoter / 4 unquoter configurations, or a "
+                 "URL-level operation whose component is a long text with quoted size 8192*m+d, m in 1..3, d in -3..+3) for which every "
+                 "(window, k) single-allocation-failure point is executed once (window = outermost call into a compiled quoter/unquoter; "
+                 "windows with more than 160 allocations -- unquoters making one tiny allocation per character -- are enumerated at head and "
+                 "tail and sampled in between), plus all large-allocation-only points and seeded multi-fault plans. distinct_nontrivial = "
+                 "distinct (operation shape, allocation site = domain/kind/size class, boundary offset d, window index) tuples at which a "
+                 "fault actually fired. input half: a separate fault-free hostile workload is only monitored for exception types and str()."),
+        "exhaustive_per_operation": True,
+        "fault_points_executed": c.get("fault_points_executed", 0),
+        "fault_kinds_fired": {k[len("fired_site_"):]: v for k, v in sorted(c.items()) if k.startswith("fired_site_")},
+        "faults_fired_total": c.get("faults_fired", 0),
+        "multi_fault_plans": {k[len("multi_"):]: v for k, v in sorted(c.items()) if k.startswith("multi_")},
+        "outcomes": {"MemoryError": c.get("outcome_memoryerror", 0), "absorbed_same_value": c.get("outcome_absorbed_same_value", 0), "plan_did_not_fire": c.get("plans_not_fired", 0)},
+        "operations": c.get("operations", 0),
+        "operations_with_heap_growth": c.get("operations_with_heap_growth", 0),
+        "operations_enumerated_exhaustively": c.get("operations_enumerated_exhaustively", 0),
+        "windows_sampled_not_enumerated": c.get("windows_sampled_not_enumerated", 0),
+        "windows_total": c.get("windows", 0),
+        "shapes": {k[len("shape_"):]: v for k, v in sorted(c.items()) if k.startswith("shape_")},
+        "input_monitor": {k[len("inputs_"):]: v for k, v in sorted(c.items()) if k.startswith("inputs_")},
+        "input_monitor_note": "monitoring only: the input quantifier of C19 is not decided by this technique",
+        "simulated_time": "no clock; unit of progress is the fault point: %d executed" % c.get("fault_points_executed", 0),
+    }
+
+
+def env_of_C19(sub, backend):
+    return {"PYTHONMALLOC": "debug"} if sub == "alloc_faults_debug_allocator" else None
+
+
+def harness_is_violation_C19(h):
+    return False
+
+
 SPECS = {
+    "C19": {"machine": "c19", "level": "fault_enumeration", "plan": plan_C19, "evidence": evidence_C19, "allocfault": True, "env_of": env_of_C19,
+            "stubs": ["allocator shim sim/allocfault.c sits between CPython and its real allocators (PyMem_SetAllocator); module-level quoter instances are re-bound to transparent C proxies that open/close fault windows"],
+            "assumptions": [
+                "allocation sites served from CPython free lists make no allocator call and therefore have no failure point",
+                "'inside the compiled quoter' = inside an outermost call of a module-level _Quoter/_Unquoter instance",
+                "str() of results is only required for URLs whose lineage never used encoded=True or SplitResult (documented: caller is responsible for correctness)",
+                "input half is monitored on a seeded hostile workload, not decided",
+            ]},
     "C20": {"machine": "c20", "level": "exploration", "plan": plan_C20, "evidence": evidence_C20, "post": post_C20,
             "assumptions": [
                 "code outside yarl's .py files (stdlib, idna, multidict, propcache, functools.lru_cache C wrapper, the compiled quoter) executes as one atomic step, which is what the GIL guarantees for the C parts",
